@@ -728,7 +728,13 @@ class Module(HasAccessibles):
                 for mobj in modules:
                     # TODO when needed: here we might add a call to a method :meth:`beforeWriteInit`
                     mobj.writeInitParams()
-                    mobj.initialReads()
+                    try:
+                        mobj.initialReads()
+                    except CommunicationFailedError:
+                        raise
+                    except Exception:
+                        # an error in initialReads must not kill the poll thread
+                        mobj.log.error('initialReads: %s', formatException())
                 # call all read functions a first time
                 for m in polled_modules:
                     for mobj, rfunc, _ in m.pollInfo.polled_parameters:
